@@ -151,6 +151,9 @@ class Timeline(object):
         self.options = {k: v for k, v in DEFAULT_OPTIONS.items()}
         if options:
             self.options.update(options)
+        if self.options["scale"] is DEFAULT_OPTIONS["scale"]:
+            self.options["scale"] = TimeScale()
+        self.options["labella"] = dict(self.options["labella"])
         self.direction = self.options["direction"]
         self.options["labella"]["direction"] = self.direction
         # parse items
